@@ -3281,7 +3281,7 @@ func matchChildVariadic(files []*ast.File, info *types.Info) (sites []synSite, e
 			})
 			ast.Inspect(fd.Body, func(n ast.Node) bool {
 				call, ok := n.(*ast.CallExpr)
-				if !ok || !call.Ellipsis.IsValid() || len(call.Args) < 2 {
+				if !ok || len(call.Args) < 1 {
 					return true
 				}
 				var callee types.Object
@@ -3292,6 +3292,34 @@ func matchChildVariadic(files []*ast.File, info *types.Info) (sites []synSite, e
 					callee = info.Uses[fn.Sel]
 				}
 				if callee != self {
+					return true
+				}
+				if !call.Ellipsis.IsValid() {
+					// a self-call on the same level (not on an element) that drops the variadic parameter: the paths
+					// given for this value are forgotten for its other representation
+					fixed := len(fd.Type.Params.List) - 1
+					nfixed := 0
+					for _, p := range fd.Type.Params.List[:fixed] {
+						nfixed += len(p.Names)
+					}
+					if len(call.Args) == nfixed {
+						elem := false
+						switch a0 := ast.Unparen(call.Args[0]).(type) {
+						case *ast.IndexExpr:
+							elem = true
+						case *ast.Ident:
+							elem = rangeVars[info.Uses[a0]]
+						}
+						examined++
+						if !elem {
+							name := enclosingFuncName(f, fd.Pos())
+							sites = append(sites, synSite{pos: call.Pos(), file: f, key: fmt.Sprintf("%s:same-level-call-drops:%s", name, vparam.Name()),
+								msg: fmt.Sprintf("%s calls itself on the same value in another form (%s) without its %s...: the paths given for this value no longer apply", name, types.ExprString(call.Args[0]), vparam.Name())})
+						}
+					}
+					return true
+				}
+				if len(call.Args) < 2 {
 					return true
 				}
 				examined++
@@ -3343,13 +3371,16 @@ func diff(v0, v1 any, ignores ...path) (n int) {
 	if s, ok := v0.(interface{ Simplify() any }); ok {
 		return diff(s.Simplify(), v1, ignores...)
 	}
+	if s, ok := v1.(interface{ Simplify() any }); ok {
+		return diff(v0, s.Simplify())
+	}
 	return 0
 }
 `
 
 func ruleChildVariadic(prog *Program, rep *Report, floor int, rels ...string) {
-	rep.Rules = append(rep.Rules, "F-childpaths: a recursive function does not pass its own variadic parameter through unchanged in a self-call whose first argument is an element of the value (a range variable or an index expression) ("+strings.Join(rels, ", ")+")")
-	runSynRule(prog, rep, "F-childpaths", rels, matchChildVariadic, fixtureChildVariadic, 1, floor)
+	rep.Rules = append(rep.Rules, "F-childpaths: a recursive function does not pass its own variadic parameter through unchanged in a self-call whose first argument is an element of the value (a range variable or an index expression), and does not drop it in a self-call on the value itself in another form ("+strings.Join(rels, ", ")+")")
+	runSynRule(prog, rep, "F-childpaths", rels, matchChildVariadic, fixtureChildVariadic, 2, floor)
 }
 
 // ---------------------------------------------------------------- P-guardtight
@@ -3814,4 +3845,240 @@ func rulePoolNew(prog *Program, rep *Report, specs ...feSpec) {
 	if n < 2 {
 		rep.Errorf("D-poolnew found %d parser pools (floor 2)", n)
 	}
+}
+
+// ---------------------------------------------------------------- D-recvguard
+
+// matchRecvGuard: the conversions of the generic containers (Alter, Simplify, Dup of gen.Array and gen.Object)
+// all start with one test of the receiver that separates "no container" (nil stays nil) from "a container,
+// possibly empty". A copy that tests something else (0 < len(n)) turns an empty container into no container:
+// Marshal then writes null for [].
+func matchRecvGuard(files []*ast.File, info *types.Info) (sites []synSite, examined int) {
+	type g struct {
+		pos  token.Pos
+		file *ast.File
+		name string
+		cond string
+	}
+	var guards []g
+	for _, f := range files {
+		for _, d := range f.Decls {
+			fd, ok := d.(*ast.FuncDecl)
+			if !ok || fd.Body == nil || fd.Recv == nil || len(fd.Recv.List) != 1 || len(fd.Recv.List[0].Names) != 1 {
+				continue
+			}
+			recv := info.Defs[fd.Recv.List[0].Names[0]]
+			if recv == nil {
+				continue
+			}
+			switch recv.Type().Underlying().(type) {
+			case *types.Slice, *types.Map:
+			default:
+				continue
+			}
+			for _, s := range fd.Body.List {
+				is, ok := s.(*ast.IfStmt)
+				if !ok || is.Init != nil {
+					continue
+				}
+				// the condition mentions the receiver and nothing else that varies
+				onlyRecv, mentions := true, false
+				ast.Inspect(is.Cond, func(n ast.Node) bool {
+					if id, ok := n.(*ast.Ident); ok {
+						switch o := info.Uses[id].(type) {
+						case *types.Var:
+							if o == recv {
+								mentions = true
+							} else {
+								onlyRecv = false
+							}
+						case *types.Func:
+							onlyRecv = false
+						}
+					}
+					return true
+				})
+				if !onlyRecv || !mentions {
+					continue
+				}
+				// the guarded block builds the result: it contains a make or a composite literal or a loop over the receiver
+				builds := false
+				ast.Inspect(is.Body, func(n ast.Node) bool {
+					switch x := n.(type) {
+					case *ast.RangeStmt:
+						if id, ok := ast.Unparen(x.X).(*ast.Ident); ok && info.Uses[id] == recv {
+							builds = true
+						}
+					}
+					return true
+				})
+				if !builds {
+					continue
+				}
+				cond := regexp.MustCompile(`\b`+regexp.QuoteMeta(fd.Recv.List[0].Names[0].Name)+`\b`).ReplaceAllString(types.ExprString(is.Cond), "RECV")
+				guards = append(guards, g{is.Pos(), f, enclosingFuncName(f, fd.Pos()), cond})
+			}
+		}
+	}
+	examined = len(guards)
+	cnt := map[string]int{}
+	for _, x := range guards {
+		cnt[x.cond]++
+	}
+	major, best := "", 0
+	for c, n := range cnt {
+		if n > best {
+			major, best = c, n
+		}
+	}
+	if best*2 <= len(guards) {
+		return // no majority: nothing to compare with
+	}
+	for _, x := range guards {
+		if x.cond != major {
+			sites = append(sites, synSite{pos: x.pos, file: x.file, key: fmt.Sprintf("%s:guard:%s", x.name, x.cond),
+				msg: fmt.Sprintf("%s guards the walk over its receiver with `%s`; the other %d conversions of the container types use `%s`: an empty container is treated like no container (or the reverse)", x.name, x.cond, best, major)})
+		}
+	}
+	return
+}
+
+const fixtureRecvGuard = `package fixture
+
+type arr []any
+
+func (n arr) alter() any {
+	var out []any
+	if n != nil {
+		out = make([]any, 0, len(n))
+		for _, m := range n {
+			out = append(out, m)
+		}
+	}
+	return out
+}
+
+func (n arr) dup() any {
+	var out []any
+	if n != nil {
+		out = make([]any, 0, len(n))
+		for _, m := range n {
+			out = append(out, m)
+		}
+	}
+	return out
+}
+
+func (n arr) simplify() any {
+	var out []any
+	if 0 < len(n) {
+		out = make([]any, 0, len(n))
+		for _, m := range n {
+			out = append(out, m)
+		}
+	}
+	return out
+}
+`
+
+func ruleRecvGuard(prog *Program, rep *Report, floor int, rels ...string) {
+	rep.Rules = append(rep.Rules, "D-recvguard: the methods of slice and map types that walk their receiver under a test of the receiver alone (Alter, Simplify, Dup of gen.Array and gen.Object) all use the same test ("+strings.Join(rels, ", ")+")")
+	runSynRule(prog, rep, "D-recvguard", rels, matchRecvGuard, fixtureRecvGuard, 1, floor)
+}
+
+// ---------------------------------------------------------------- D-putonce
+
+// matchPutOnce: an instance goes back to its pool once. A function that defers pool.Put(x) and also calls
+// pool.Put(x) on some path (an error branch) puts the instance in twice: two later, overlapping callers then
+// get the same parser or writer.
+func matchPutOnce(files []*ast.File, info *types.Info) (sites []synSite, examined int) {
+	isPut := func(call *ast.CallExpr) (string, bool) {
+		sel, ok := call.Fun.(*ast.SelectorExpr)
+		if !ok || sel.Sel.Name != "Put" || len(call.Args) != 1 {
+			return "", false
+		}
+		t := info.TypeOf(sel.X)
+		if t == nil {
+			return "", false
+		}
+		if p, ok := t.(*types.Pointer); ok {
+			t = p.Elem()
+		}
+		nt, ok := t.(*types.Named)
+		if !ok || nt.Obj().Name() != "Pool" || nt.Obj().Pkg() == nil || nt.Obj().Pkg().Path() != "sync" {
+			return "", false
+		}
+		return types.ExprString(sel.X) + "/" + types.ExprString(call.Args[0]), true
+	}
+	for _, f := range files {
+		for _, d := range f.Decls {
+			fd, ok := d.(*ast.FuncDecl)
+			if !ok || fd.Body == nil {
+				continue
+			}
+			deferred := map[string]bool{}
+			var plain []struct {
+				key string
+				pos token.Pos
+			}
+			ast.Inspect(fd.Body, func(n ast.Node) bool {
+				switch x := n.(type) {
+				case *ast.FuncLit:
+					return false
+				case *ast.DeferStmt:
+					if k, ok := isPut(x.Call); ok {
+						deferred[k] = true
+					}
+					return false
+				case *ast.CallExpr:
+					if k, ok := isPut(x); ok {
+						plain = append(plain, struct {
+							key string
+							pos token.Pos
+						}{k, x.Pos()})
+					}
+				}
+				return true
+			})
+			if len(deferred)+len(plain) > 0 {
+				examined++
+			}
+			for _, p := range plain {
+				if deferred[p.key] {
+					name := enclosingFuncName(f, fd.Pos())
+					sites = append(sites, synSite{pos: p.pos, file: f, key: fmt.Sprintf("%s:put-twice:%s", name, p.key),
+						msg: fmt.Sprintf("%s puts %s back here although a deferred Put of the same instance is pending: the instance is in the pool twice and two later callers share it", name, p.key)})
+				}
+			}
+		}
+	}
+	return
+}
+
+const fixturePutOnce = `package fixture
+
+import "sync"
+
+type parser struct{}
+
+var pool = sync.Pool{New: func() any { return &parser{} }}
+
+func must(fail bool) {
+	p := pool.Get().(*parser)
+	defer pool.Put(p)
+	if fail {
+		pool.Put(p)
+		panic("failed")
+	}
+}
+
+func fine() {
+	p := pool.Get().(*parser)
+	defer pool.Put(p)
+}
+`
+
+func rulePutOnce(prog *Program, rep *Report, floor int, rels ...string) {
+	rep.Rules = append(rep.Rules, "D-putonce: no function calls pool.Put(x) while a deferred pool.Put(x) of the same instance is pending ("+strings.Join(rels, ", ")+")")
+	runSynRule(prog, rep, "D-putonce", rels, matchPutOnce, fixturePutOnce, 1, floor)
 }
